@@ -258,7 +258,10 @@ class Extract:
             if base is None:
                 base = G.short(sty)
             return "%s.%s" % (base, name)
-        if k == "mcall" and n.get("m") in ("unwrap", "expect", "iter", "first", "last", "get") and not n.get("args"):
+        if k == "mcall" and n.get("m") == "first" and not n.get("args"):
+            b = self.place(n["recv"], env)
+            return "%s[0]" % b if b else None       # v.first() reads v[0]
+        if k == "mcall" and n.get("m") in ("unwrap", "expect", "iter", "last", "get") and not n.get("args"):
             return self.place(n["recv"], env)
         if k == "index":
             b = self.place(n["e"], env)
@@ -1183,7 +1186,19 @@ class Extract:
         self.walk(main["body"], TRUE, env, main)
         # rule functions handed around as values (a table of fn pointers run in a loop) are run as well: each is
         # entered under the path condition of the dispatcher's entry
-        for n in walk(main["body"]):
+        from .valid import with_const_tables
+        own = {id(n) for n in walk(main["body"])}
+        for n in list(with_const_tables(self.F, main["body"])):
+            # a closure in a table kept in a `const` that only wraps one rule call
+            # (`|m| Vec::from_iter(m.validate_c4())`)
+            if n.get("k") in ("call", "mcall") and id(n) not in own:
+                hb0 = self.F.body_by_path.get(callee(n))
+                if hb0 is not None and "body" in hb0 and not hb0.get("exp") and hb0["path"] not in self.visiting and \
+                        "SwiftValidationError" in (hb0.get("output") or "") and \
+                        (hb0.get("impl_self") or "").startswith("messages::") and hb0["name"].startswith("validate_") \
+                        and hb0["name"] != "validate_network_rules":
+                    self.visiting.add(hb0["path"])
+                    self.walk(hb0["body"], TRUE, {}, hb0)
             if n.get("k") == "def" and n.get("dk") in ("assoc_fn", "fn"):
                 hb = self.F.body_by_path.get(n.get("def"))
                 if hb is not None and "body" in hb and not hb.get("exp") and hb["path"] not in self.visiting and \
